@@ -12,7 +12,7 @@ fn fmt_stub2(_a: core::fmt::Arguments<'_>) -> String {
 }
 
 // @harness c16_header_write
-// @props C16 C17
+// @props C16 C17 C04
 // @tier quick
 // @cost 100
 // @timeout 1200
